@@ -1339,6 +1339,11 @@ def lint(repo, lib_dir, workdir, dumps):
     hpath, hincs = header_tu(repo, workdir)
     prod, verif = [], []
     files = set()
+    # the dumps are independent clang runs: fetch them in parallel
+    from concurrent.futures import ThreadPoolExecutor
+    jobs = [(tu, v) for v in (False, True) for tu in tus + [hpath]]
+    with ThreadPoolExecutor(max_workers=min(12, os.cpu_count() or 4)) as ex:
+        list(ex.map(lambda j: dumps.get(j[0], 'yaclib', verif=j[1]), jobs))
     for tu in tus + [hpath]:
         lint_docs(dumps.get(tu, 'yaclib', verif=False), repo, prod, files)
     for tu in tus + [hpath]:
@@ -1389,8 +1394,49 @@ def snapshot_config(lib_dir, workdir):
     return dst
 
 
-def generate(repo, lib_dir, workdir):
+def _inputs_hash(repo, lib_dir):
+    """content hash of everything the generated file depends on"""
+    import hashlib
+    h = hashlib.sha1()
+    files = [os.path.join(lib_dir, 'include/yaclib/config.hpp'), os.path.join(lib_dir, 'compile_commands.json'),
+             os.path.abspath(__file__), os.path.join(os.path.dirname(os.path.abspath(__file__)), 'cxxast.py'),
+             os.path.join(os.path.dirname(os.path.abspath(__file__)), 'skel.py')]
+    for base in ('include', 'src', 'CMakeLists.txt', 'cmake'):  # the whole tree: any header can reach the fault layer's TUs
+        p = os.path.join(repo, base)
+        if os.path.isfile(p):
+            files.append(p)
+        for d, dn, fs in os.walk(p):
+            dn.sort()
+            files += [os.path.join(d, f) for f in sorted(fs)]
+    for f in files:
+        h.update(f.encode())
+        try:
+            with open(f, 'rb') as fh:
+                h.update(hashlib.sha1(fh.read()).digest())
+        except OSError:
+            h.update(b'?')
+    return h.hexdigest()[:16]
+
+
+def generate(repo, lib_dir, workdir, use_cache=True):
     lib_dir = snapshot_config(lib_dir, workdir)
+    # the translation is a function of the files hashed here (the fault layer, its headers, the build configuration
+    # and the translator itself): re-use the previous output when none of them changed
+    stamp = os.path.join(workdir, 'fibersched-%s.lean' % _inputs_hash(repo, lib_dir))
+    if use_cache and os.path.exists(stamp):
+        with open(stamp) as f:
+            return f.read()
+    text = _generate(repo, lib_dir, workdir)
+    for f in os.listdir(workdir):
+        if f.startswith('fibersched-') and f.endswith('.lean'):
+            os.remove(os.path.join(workdir, f))
+    with open(stamp + '.tmp', 'w') as f:
+        f.write(text)
+    os.replace(stamp + '.tmp', stamp)
+    return text
+
+
+def _generate(repo, lib_dir, workdir):
     inc = os.path.join(lib_dir, 'include')
     dumps = Dumps(repo, inc)
     out = [HEADER]
